@@ -312,6 +312,20 @@ var userForms = []struct{ name, tail string }{
 	{"user_groups_not_in_allowgroups", " not allowed because none of user's groups are listed in AllowGroups"},
 }
 
+// finalRunes: what the unescaped final dot of the two DNS patterns matches - one rune that is not a newline: an ASCII
+// byte, a 2/3/4-byte sequence, or ONE byte that does not start a valid sequence (Go decodes it as U+FFFD, width 1)
+var finalRunes = []string{"!", " ", "x", "\x00", "\x7f", "é", "ß", "。", "日", "€", "😀", "\U0010ffff", "\u0080", "\xff", "\x80", "\xbf", "\xc3", "\xe2", "\xf0", "\xc0", "\xf5"}
+
+// finalTwoRunes: tails that are NOT one rune (nothing, two runes, a newline): the patterns must not match
+var finalTwoRunes = []string{"", "..", ".!", "é.", ".é", "\xe2\x82", "\xf0\x9f\x98", "\xc3\x28", "\xc0\x80", "\xed\xa0\x80", "\xff\xff", "\n", ".\n", "日本"}
+
+func genFinalRune(r *hutil.Rand) string {
+	if r.Chance(3, 5) {
+		return "."
+	}
+	return hutil.Pick(r, finalRunes)
+}
+
 var formNames = []string{
 	"accepted_key", "accepted_cert", "accepted_password", "cert_invalid", "invalid_user",
 	"user_not_in_allowusers", "user_in_denyusers", "user_not_in_any_group", "user_group_in_denygroups", "user_groups_not_in_allowgroups",
@@ -386,12 +400,14 @@ func genForm(r *hutil.Rand, form string) genLine {
 		return genLine{Form: form, Line: fmt.Sprintf("Nasty PTR record \"%s\" is set up for %s, ignoring", name, addr),
 			Exp: &expEvent{Src: addr, DNS: sp(name), LoggedAs: unk, UserID: unk}, Method: "UnknownLogin"}
 	case "reverse_mapping":
+		// the pattern ends in an unescaped dot: ONE RUNE (not newline) - sshd prints a full stop; any other single rune,
+		// multi-byte or invalid (U+FFFD, one byte), yields the same event (group R: IRune)
 		name := genHostname(r)
-		return genLine{Form: form, Line: fmt.Sprintf("reverse mapping checking getaddrinfo for %s [%s] failed.", name, addr),
+		return genLine{Form: form, Line: fmt.Sprintf("reverse mapping checking getaddrinfo for %s [%s] failed%s", name, addr, genFinalRune(r)),
 			Exp: &expEvent{Src: addr, DNS: sp(name), LoggedAs: unk, UserID: unk}, Method: "UnknownLogin"}
 	case "not_map_back":
 		name := genHostname(r)
-		return genLine{Form: form, Line: fmt.Sprintf("Address %s maps to %s, but this does not map back to the address.", addr, name),
+		return genLine{Form: form, Line: fmt.Sprintf("Address %s maps to %s, but this does not map back to the address%s", addr, name, genFinalRune(r)),
 			Exp: &expEvent{Src: addr, DNS: sp(name), LoggedAs: unk, UserID: unk}, Method: "UnknownLogin"}
 	case "max_attempts":
 		return genLine{Form: form, Line: fmt.Sprintf("maximum authentication attempts exceeded for %s from %s port %s ssh2", user, addr, port),
@@ -574,6 +590,16 @@ func genHostile(r *hutil.Rand) genLine {
 		k := r.Intn(len(base) + 1)
 		return genLine{Form: "injected_bytes", Line: base[:k] + hutil.Pick(r, []string{"\x00", "\"", "\xff\xfe", "\xc3", "\n", "\r\n", "'"}) + base[k:]}
 	case 8: // empty and whitespace
+		if r.Chance(1, 2) {
+			// the two patterns ending in an unescaped dot, with a tail that is not exactly one rune
+			g := genForm(r, hutil.Pick(r, []string{"reverse_mapping", "not_map_back"}))
+			word := " failed"
+			if g.Form == "not_map_back" {
+				word = " address"
+			}
+			cut := strings.LastIndex(g.Line, word)
+			return genLine{Form: "dns_tail_not_one_rune", Line: g.Line[:cut+len(word)] + hutil.Pick(r, finalTwoRunes)}
+		}
 		return genLine{Form: "blank", Line: hutil.Pick(r, []string{"", " ", "\n", "  \t"})}
 	}
 	// very long
